@@ -220,6 +220,17 @@ Definition faithful (x : svc) (addr : string) (u : utxo_model) (o : autxo) : Pro
   (a_datum_hash o, a_datum o) = datum_report x (u_datum u) /\
   a_script o = u_script u.
 
+(* the same without fixing which of the two datum fields a service fills: this is what the harness decides
+   (AdaptersOracle.faithfulb) on the outputs of the real adapters *)
+Definition faithful_any (addr : string) (u : utxo_model) (o : autxo) : Prop :=
+  a_txid o = u_txid u /\ a_index o = Z.of_N (u_index u) /\ a_addr o = addr /\
+  a_lovelace o = Z.of_N (u_lovelace u) /\
+  (forall p n, content (a_assets o) p n = Z.of_N (ucontent (u_assets u) p n)) /\
+  (forall p n, present (a_assets o) p n <-> upresent (u_assets u) p n) /\
+  (wfd (a_assets o) /\ forall p a, In (p, a) (a_assets o) -> wfd a /\ a <> []) /\
+  datum_ok (u_datum u) (a_datum_hash o, a_datum o) /\
+  a_script o = u_script u.
+
 (* ================================================================ well-formed models *)
 Definition wf_assets (a : uassets) : Prop :=
   NoDup (map fst a) /\
@@ -259,11 +270,12 @@ Fixpoint wf_pdata (d : pdata) : Prop :=
   | _ => True
   end.
 
+(* a datum is at least one byte of CBOR and is not its own hash (the adapters compare the two texts) *)
 Definition wf_datum (x : svc) (d : datum_m) : Prop :=
   match d with
   | DNone => True
-  | DHash h _ => length h = 32%nat
-  | DInline h _ pd => length h = 32%nat /\ match x with Cli => wf_pdata pd | _ => True end
+  | DHash h known => length h = 32%nat /\ known <> Some h
+  | DInline h raw pd => length h = 32%nat /\ raw <> [] /\ raw <> h /\ match x with Cli => wf_pdata pd | _ => True end
   end.
 
 (* reference-script kinds the adapter handles at all.  OUTSIDE this region the adapter raises for the whole
